@@ -38,7 +38,7 @@ type queue[E any] struct {
 //go:norace
 func (q *queue[E]) push(e E) {
 	if q.n >= maxQ {
-		panic("vchan: queue overflow")
+		panic(vrt.CapacityError("vchan: queue overflow"))
 	}
 	q.a[q.n] = e
 	q.n++
@@ -91,7 +91,7 @@ func Make[T any](n ...int) *Chan[T] {
 	if len(n) > 0 {
 		c.capacity = n[0]
 		if c.capacity > maxQ {
-			panic("vchan: buffer capacity above the model's maximum")
+			panic(vrt.CapacityError("vchan: buffer capacity above the model's maximum"))
 		}
 	}
 	return c
